@@ -29,6 +29,9 @@ pub trait Kind {
     fn sample_ok(_c: &Self::Case) -> bool {
         true
     }
+    fn kind_name() -> &'static str {
+        "script"
+    }
     fn label_names() -> Vec<String>;
     fn totals(c: &[u64]) -> serde_json::Value;
     fn assumptions() -> Vec<String>;
@@ -100,6 +103,8 @@ pub struct ReplayFile<C> {
 
 #[derive(Serialize, Deserialize, Default, Clone)]
 pub struct Failure {
+    #[serde(default)]
+    pub kind: String,
     pub script: Option<serde_json::Value>,
     pub msg: String,
     pub first_msg: String,
@@ -367,10 +372,10 @@ pub fn worker_k<K: Kind>(args: &[String]) -> i32 {
         let (ffs, ffm) = first_fail.clone().map(|(s, m)| (Some(s), m)).unwrap_or((None, String::new()));
         match e {
             TestError::Fail(reason, s) => {
-                out.failure = Some(Failure { script: Some(serde_json::to_value(&s).unwrap()), msg: reason.message().to_string(), first_msg: ffm, first_script: ffs });
+                out.failure = Some(Failure { kind: K::kind_name().to_string(), script: Some(serde_json::to_value(&s).unwrap()), msg: reason.message().to_string(), first_msg: ffm, first_script: ffs });
             }
             TestError::Abort(reason) => {
-                out.failure = Some(Failure { script: ffs.clone(), msg: format!("aborted: {}", reason.message()), first_msg: ffm, first_script: ffs });
+                out.failure = Some(Failure { kind: K::kind_name().to_string(), script: ffs.clone(), msg: format!("aborted: {}", reason.message()), first_msg: ffm, first_script: ffs });
             }
         }
     }
@@ -378,6 +383,7 @@ pub fn worker_k<K: Kind>(args: &[String]) -> i32 {
     0
 }
 
+pub const BIG_PROPS: [&str; 6] = ["C01", "C03", "C05", "C06", "C15", "C16"];
 pub const SWEEP_PROPS: [&str; 7] = ["C01", "C02", "C03", "C04", "C05", "C06", "C08"];
 
 /// One worker of the small-scope sweep: cases index, index+of, ...
@@ -415,7 +421,7 @@ pub fn sweep_worker(args: &[String]) -> i32 {
             Outcome::Violation => {
                 out.violations += 1;
                 if out.failure.is_none() {
-                    out.failure = Some(Failure { script: Some(serde_json::to_value(&s).unwrap()), msg: r.msg.clone(), first_msg: r.msg.clone(), first_script: None });
+                    out.failure = Some(Failure { kind: "script".into(), script: Some(serde_json::to_value(&s).unwrap()), msg: r.msg.clone(), first_msg: r.msg.clone(), first_script: None });
                 }
             }
             Outcome::OtherView => out.other_view += 1,
@@ -462,6 +468,10 @@ pub fn replay_k<K: Kind>(args: &[String]) -> i32 {
     let rf = match load_replay::<K::Case>(&path) {
         Ok(r) => r,
         Err(e) => {
+            // a large-scale case saved for a script-based property
+            if K::kind_name() != "big" && load_replay::<crate::big::BigCase>(&path).is_ok() {
+                return replay_k::<crate::big::BigKind>(args);
+            }
             eprintln!("{}", e);
             return 2;
         }
@@ -567,11 +577,16 @@ pub fn launcher_k<K: Kind>(args: &[String]) -> i32 {
         if !listed {
             continue;
         }
-        let Ok(rf) = load_replay::<K::Case>(f) else {
-            undecided.push(format!("unreadable replay {}", f.display()));
-            continue;
+        let r = match load_replay::<K::Case>(f) {
+            Ok(rf) => K::run(&id, tier, &rf.script),
+            Err(_) => match load_replay::<crate::big::BigCase>(f) {
+                Ok(rf) => <crate::big::BigKind as Kind>::run(&id, tier, &rf.script),
+                Err(_) => {
+                    undecided.push(format!("unreadable replay {}", f.display()));
+                    continue;
+                }
+            },
         };
-        let r = K::run(&id, tier, &rf.script);
         replayed += 1;
         match r.outcome {
             Outcome::Violation => violations.push((f.clone(), r.msg.clone())),
@@ -752,6 +767,95 @@ pub fn launcher_k<K: Kind>(args: &[String]) -> i32 {
             "description": "every adoption multigraph on 1..3 objects with multiplicity <= 2 per ordered pair (self pairs included) x kept/dropped roots x Weak to every object or none x every drop order; plus n=2 with multiplicity <= 3, one optional unrecorded stored handle, one optional loopback",
         });
     }
+    // 2d. large-scale semantic cases (size thresholds): rings with tails of up
+    // to 8k (quick) / 120k (thorough) objects under the same oracles
+    let mut big_info = serde_json::json!(null);
+    let mut big_failures: Vec<Failure> = vec![];
+    if BIG_PROPS.contains(&id.as_str()) && arg(args, "--no-big").is_none() {
+        let big_total: u64 = arg(args, "--big").and_then(|s| s.parse().ok()).unwrap_or(if tier == Tier::Thorough { 8000 } else { 640 });
+        let mut kids = vec![];
+        for i in 0..nworkers {
+            let cases = big_total / nworkers + if i < big_total % nworkers { 1 } else { 0 };
+            if cases == 0 {
+                continue;
+            }
+            let out = run_dir.join(format!("b{}.json", i));
+            let child = std::process::Command::new(&exe)
+                .arg("bigworker")
+                .arg(&id)
+                .arg("--tier")
+                .arg(if tier == Tier::Thorough { "thorough" } else { "quick" })
+                .arg("--seed")
+                .arg(seed.to_string())
+                .arg("--index")
+                .arg((i + 1000).to_string())
+                .arg("--cases")
+                .arg(cases.to_string())
+                .arg("--out")
+                .arg(&out)
+                .spawn()
+                .expect("cannot spawn big worker");
+            kids.push((child, out));
+        }
+        let mut bl = serde_json::Map::new();
+        let mut hist = vec![0u64; 64];
+        let (mut ev, mut nt, mut objs) = (0u64, 0usize, 0u64);
+        for (mut child, out) in kids {
+            let _ = child.wait();
+            let Ok(txt) = std::fs::read_to_string(&out) else {
+                undecided.push("big worker produced no output".into());
+                continue;
+            };
+            let Ok(wo) = serde_json::from_str::<WorkerOut>(&txt) else {
+                undecided.push("bad big worker output".into());
+                continue;
+            };
+            ev += wo.evaluations;
+            nt += wo.nontrivial_hashes.len();
+            objs += wo.counters[20];
+            merged.internal += wo.internal;
+            merged.timeout += wo.timeout;
+            merged.other_view += wo.other_view;
+            merged.expected_abort += wo.expected_abort;
+            merged.internal_msgs.extend(wo.internal_msgs);
+            for i in 0..64 {
+                hist[i] += wo.label_hist[i];
+            }
+            hashes.extend(wo.nontrivial_hashes.iter().map(|h| h ^ 0xB16));
+            for smp in wo.samples.into_iter().take(1) {
+                if merged.samples.len() < 10 {
+                    merged.samples.push(smp);
+                }
+            }
+            if let Some(f) = wo.failure {
+                big_failures.push(f);
+            }
+        }
+        for (i, name) in crate::big::NAMES.iter().enumerate() {
+            if hist[i] > 0 {
+                bl.insert(name.to_string(), serde_json::json!(hist[i]));
+            }
+        }
+        replayed += ev;
+        big_info = serde_json::json!({"cases": ev, "nontrivial": nt, "objects_total": objs, "labels": bl,
+            "description": "rings (optionally doubly linked, with chords) plus adopted acyclic tails, built in O(N); outside strong handles, outside Weaks and a destructor that clones a stored handle as probes; every collecting drop on a 128 KiB stack; oracles of C01/C03/C05/C06/C15/C16 at sizes the auditing interpreter cannot reach"});
+    }
+    big_failures.sort_by_key(|f| f.script.as_ref().map(|s| s.to_string().len()).unwrap_or(usize::MAX));
+    if let Some(f) = big_failures.first() {
+        if let Some(sv) = &f.script {
+            let s: crate::big::BigCase = serde_json::from_value(sv.clone()).expect("unparsable big case");
+            let r = <crate::big::BigKind as Kind>::run(&id, tier, &s);
+            let (case, msg) = if r.outcome == Outcome::Violation {
+                (s, r.msg)
+            } else if let Some(fs) = &f.first_script {
+                (serde_json::from_value(fs.clone()).expect("unparsable big case"), f.first_msg.clone())
+            } else {
+                (s, f.msg.clone())
+            };
+            let path = save_found(&id, &case, &msg);
+            violations.push((path, msg));
+        }
+    }
     let _ = std::fs::remove_dir_all(&run_dir);
 
     // smallest shrunk failure becomes the replay file
@@ -842,6 +946,7 @@ pub fn launcher_k<K: Kind>(args: &[String]) -> i32 {
             "labels": labels,
             "totals": K::totals(c),
             "small_scope_sweep": sweep_info,
+            "large_scale_cases": big_info,
             "e2_libfuzzer_campaign": fuzz_info,
             "workers": nworkers,
             "workers_on_plain_release_profile": alt_workers,
